@@ -13,6 +13,9 @@ type Outcome struct {
 	Status int    // 0 = implicit (Write without WriteHeader, or nothing at all when Body is empty)
 	Body   string // written after the status
 	Panic  bool   // panic instead of returning
+	// Mutate, if set, is applied to the request the handler was given right before it
+	// returns (handlers scrub or rewrite headers, Host, RemoteAddr before proxying).
+	Mutate func(r *http.Request)
 }
 
 // Call is one request driven through a handler chain that ends in a Gate.
@@ -70,6 +73,9 @@ func (g *Gate) ServeHTTP(w http.ResponseWriter, r *http.Request) {
 	g.mu.Lock()
 	g.InFlight--
 	g.mu.Unlock()
+	if o.Mutate != nil {
+		o.Mutate(r)
+	}
 	if o.Panic {
 		panic(fmt.Sprintf("gate: scripted panic of call %d", c.ID))
 	}
